@@ -206,6 +206,14 @@ fn cases_for_value(seed: u64, i: u64, thorough: bool) -> Vec<Case> {
         cases.push(with(SinkSpec::Io(IoPlan::At(vec![(k, IoAct::Interrupted)]))));
         cases.push(with(SinkSpec::Io(IoPlan::At(vec![(k, IoAct::Short(1))]))));
     }
+    // thorough: every pair of rejected calls, for renderings short enough (exhaustive double-fault sweep)
+    if thorough && n <= 40 {
+        for i in 0..n {
+            for j in (i + 1)..n {
+                cases.push(with(SinkSpec::Fmt(FmtPlan::FailSet(vec![i, j]))));
+            }
+        }
+    }
     // seeded multi-fault plans
     let extra = if thorough { 12 } else { 4 };
     for _ in 0..extra {
@@ -614,7 +622,7 @@ fn main() {
     let wall = t0.elapsed().as_secs_f64();
     let rule = "one case = (type, seeded value with presence pattern and dimensions, sink kind, fault plan) executed against the real Display code; \
 for every value the fault-free case, EVERY single-fault position (fmt: reject-once and reject-from at each write_str call; io: error, EINTR, 1-byte short write at each write call) \
-and seeded multi-fault plans (capacity, random rejection, fault sets, mixed io faults, all-short) are run. distinct_nontrivial = number of distinct histories \
+and seeded multi-fault plans (capacity, random rejection, fault sets, mixed io faults, all-short) are run; the thorough tier adds EVERY pair of rejected write_str calls for renderings of at most 40 calls. distinct_nontrivial = number of distinct histories \
 (type, presence, dimensions, sink kind, per-call offered/accepted bytes and verdict, return value) among cases in which at least one injected fault actually fired";
     let ev = serde_json::json!({
         "property_id": "C18",
